@@ -845,7 +845,7 @@ def rand_path(rng, qm):
     p = list((S("/q") if qm else (0x2f,) + ((rng.choice([c for c in PATH_OK if c != 0x71] + HIGH),) if body or rng.random() < 0.8 else ())) + body)
     # no empty and no dot segments: kvarn does not serve (and so does not cache) such targets as they are
     for i in range(1, len(p)):
-        if p[i - 1] == 0x2f and p[i] in (0x2f, 0x2e):
+        if (p[i - 1] == 0x2f and p[i] in (0x2f, 0x2e)) or (p[i - 1] == 0x2e and p[i] == 0x2f):
             p[i] = A
     return tuple(p)
 
